@@ -25,6 +25,10 @@ pub fn div_nxm_normalized(numerator: &mut [u64], divisor: &[u64]) {
     debug_assert!(*divisor.last().unwrap() >= (1 << 63));
 
     let n = divisor.len();
+    if numerator.len() == n {
+        // No room for a quotient: the numerator already is the remainder.
+        return;
+    }
     let m = numerator.len() - n - 1;
 
     // Compute the divisor double limb and reciprocal
